@@ -1,6 +1,7 @@
 package locks
 
 import (
+	"bytes"
 	"context"
 	"fmt"
 	"reflect"
@@ -488,5 +489,181 @@ func TestC28Edge(t *testing.T) {
 			"and nothing after they are unlocked; non-trivial = >= 1000 attempts with >= 10% won by Unlock and >= 10% won by the expiry",
 		Quick: 5, Thorough: 80,
 		Gen: genC28Edge, Run: runC28Edge,
+	})
+}
+
+// --- facet "cancel": waiters cancelled around the holder's release -----------
+//
+// For batches of one-shot keys: A holds the key, B queues behind it with a
+// cancellable context (observed parked in lock.Lock's select, one stack dump
+// per batch), then B's context is cancelled and A unlocks within -50..+50 us of
+// each other (both orders). A Lock call of B that returned nil is a real
+// holder for its TTL: in a generated fraction of the cases B relies on the TTL
+// (never unlocks), otherwise it unlocks; a B that got the context error holds
+// nothing and is dropped. After every TTL has elapsed (the clause is polled
+// with a grace of seconds against TTLs of milliseconds) the lock must keep
+// per-key state only for the keys still held.
+
+type C28Cancel struct {
+	Batches    int `json:"batches"`
+	BatchSize  int `json:"batch_size"`
+	TTLUs      int `json:"ttl_us"`      // TTL of the waiters' locks
+	Off0Us     int `json:"off0_us"`     // first offset of cancel relative to Unlock (-50..50; negative = cancel first)
+	StrideUs   int `json:"stride_us"`   // offset of attempt i = ((off0+50 + i*stride) mod 101) - 50
+	LeaveEvery int `json:"leave_every"` // every k-th waiter that obtained the lock relies on its TTL (1 = all of them)
+	Held       int `json:"held"`
+}
+
+func runC28Cancel(s C28Cancel) pbt.Outcome {
+	if s.Batches < 1 || s.Batches > 1000 || s.BatchSize < 1 || s.BatchSize > 256 || s.TTLUs < 200 || s.TTLUs > 100000 || s.LeaveEvery < 1 || s.Held < 0 || s.Held > 8 {
+		return pbt.Outcome{Skip: true}
+	}
+	g0 := runtime.NumGoroutine()
+	l := lock.New()
+	bg := context.Background()
+	type heldKey struct{ key, id string }
+	var hs []heldKey
+	for i := 0; i < s.Held; i++ {
+		k := fmt.Sprintf("held-%d", i)
+		id, err := l.Lock(bg, k, c14Forever)
+		if err != nil {
+			return pbt.Failf("lock-error", "Lock(%s): %v", k, err)
+		}
+		hs = append(hs, heldKey{k, id})
+	}
+	ttl := time.Duration(s.TTLUs) * time.Microsecond
+	type waiter struct {
+		key    string
+		aID    string
+		cancel context.CancelFunc
+		gid    int64
+		res    chan lockRes
+	}
+	var granted, leftToTTL, ctxErr, attempt int
+	for b := 0; b < s.Batches; b++ {
+		ws := make([]*waiter, s.BatchSize)
+		ids := make([]int64, s.BatchSize)
+		for i := range ws {
+			key := fmt.Sprintf("cx-%d-%d", b, i)
+			aID, err := l.Lock(bg, key, c14Forever)
+			if err != nil {
+				return pbt.Failf("lock-error", "Lock(%s) on a never used key: %v", key, err)
+			}
+			ctx, cancel := context.WithCancel(bg)
+			w := &waiter{key: key, aID: aID, cancel: cancel, res: make(chan lockRes, 1)}
+			gidc := make(chan int64, 1)
+			go func() {
+				gidc <- goid()
+				id, err := l.Lock(ctx, key, ttl)
+				w.res <- lockRes{id: id, err: err}
+			}()
+			w.gid = <-gidc
+			ws[i], ids[i] = w, w.gid
+		}
+		// all waiters of the batch must be queued (parked in the select of lock.Lock)
+		bo := newBackoff()
+		for {
+			snap := snapshot(ids...)
+			all := true
+			for _, id := range ids {
+				g, ok := snap[id]
+				if !ok || g.state != "select" || !bytes.Contains(g.stack, []byte(lockFn)) {
+					all = false
+					break
+				}
+			}
+			if all {
+				break
+			}
+			if bo.elapsed() > curHangBound() {
+				hangSeen.Store(true)
+				return pbt.Failf("hang", "batch %d: a waiter queued behind a non-expiring holder is neither parked in lock.Lock nor returned", b)
+			}
+			bo.wait()
+		}
+		for _, w := range ws {
+			off := time.Duration(((s.Off0Us+50+attempt*s.StrideUs)%101+101)%101-50) * time.Microsecond
+			attempt++
+			var uerr error
+			if off <= 0 {
+				w.cancel()
+				spinFor(-off)
+				uerr = l.Unlock(w.key, w.aID)
+			} else {
+				uerr = l.Unlock(w.key, w.aID)
+				spinFor(off)
+				w.cancel()
+			}
+			if uerr != nil {
+				return pbt.Failf("unlock-error", "Unlock(%s) of a non-expiring holder: %v", w.key, uerr)
+			}
+		}
+		for _, w := range ws {
+			var r lockRes
+			select {
+			case r = <-w.res:
+			case <-time.After(curHangBound()):
+				hangSeen.Store(true)
+				return pbt.Failf("hang", "batch %d: waiter on %s does not return from Lock although its context is cancelled and the holder unlocked", b, w.key)
+			}
+			if r.err != nil {
+				ctxErr++ // holds nothing
+				continue
+			}
+			granted++
+			if granted%s.LeaveEvery == 0 {
+				leftToTTL++ // relies on the TTL: never unlocks
+				continue
+			}
+			_ = l.Unlock(w.key, r.id) // an error means the TTL was faster
+		}
+	}
+	what := fmt.Sprintf("%d one-shot keys: holder A, waiter B (ttl %v) cancelled within +/-50 us of A's Unlock; B obtained the lock %d times (%d of them left to the TTL, the others unlocked), got the context error %d times",
+		attempt, ttl, granted, leftToTTL, ctxErr)
+	if f := c28Quiesce(l, g0, s.Held, what); f != nil {
+		return *f
+	}
+	for _, h := range hs {
+		if err := l.Unlock(h.key, h.id); err != nil {
+			return pbt.Failf("unlock-error", "Unlock(%s) of the steady set: %v", h.key, err)
+		}
+	}
+	if f := c28Quiesce(l, g0, 0, what+", steady set unlocked"); f != nil {
+		return *f
+	}
+	out := pbt.Outcome{NonTrivial: attempt >= 100 && leftToTTL > 0 && ctxErr > 0}
+	if leftToTTL > 0 {
+		out.Classes = append(out.Classes, "cancelled-waiter-obtained-lock-and-relied-on-ttl")
+	}
+	if ctxErr > 0 {
+		out.Classes = append(out.Classes, "cancelled-waiter-got-context-error")
+	}
+	if granted > leftToTTL {
+		out.Classes = append(out.Classes, "cancelled-waiter-obtained-lock-and-unlocked")
+	}
+	return out
+}
+
+func genC28Cancel(t *rapid.T) C28Cancel {
+	return C28Cancel{
+		Batches:    rapid.IntRange(3, 8).Draw(t, "batches"),
+		BatchSize:  rapid.IntRange(16, 48).Draw(t, "batchsize"),
+		TTLUs:      rapid.SampledFrom([]int{1000, 2000, 3000, 5000}).Draw(t, "ttl"),
+		Off0Us:     rapid.IntRange(-50, 50).Draw(t, "off0"),
+		StrideUs:   rapid.SampledFrom([]int{1, 3, 7, 13, 37}).Draw(t, "stride"),
+		LeaveEvery: rapid.IntRange(1, 3).Draw(t, "leave"),
+		Held:       rapid.IntRange(0, 3).Draw(t, "held"),
+	}
+}
+
+func TestC28Cancel(t *testing.T) {
+	pbt.Main(t, pbt.Spec[C28Cancel]{
+		ID: "C28", Facet: "cancel",
+		Rule: "fresh lock.New(); 3..8 batches of 16..48 one-shot keys: A holds (non-expiring), B queues with a cancellable context and TTL 1..5 ms (observed parked), then cancel(B) and Unlock(A) " +
+			"are issued -50..+50 us apart (both orders, offsets sweep the range with a drawn stride); a B whose Lock returned nil relies on its TTL in every k-th case (k = 1..3) and unlocks otherwise, " +
+			"a B with the context error is dropped; after all TTLs elapsed lock.queues must hold exactly the 0..3 keys still held (polled, 12 s grace); " +
+			"non-trivial = >= 100 attempts with >= 1 lock obtained by a cancelled waiter and left to its TTL and >= 1 context error",
+		Quick: 20, Thorough: 400,
+		Gen: genC28Cancel, Run: runC28Cancel,
 	})
 }
